@@ -390,6 +390,10 @@ func (reader *DataReader) next() ([]byte, *DataPos, error) {
 		off := int64(reader.blockID) * blockSize
 		// 读取位置已到达或越过文件末尾
 		if off >= fileSize {
+			// 记录的后续 chunk 缺失时同样回退到该记录的起始位置
+			if cnt > 0 {
+				reader.blockID, reader.offset = pos.BlockID, pos.Offset
+			}
 			return nil, nil, io.EOF
 		}
 		// 当前 block 实际大小
@@ -405,8 +409,15 @@ func (reader *DataReader) next() ([]byte, *DataPos, error) {
 			return nil, nil, err
 		}
 
+		// 文件末尾的 chunk 不完整, 说明写入过程被中断 (如断电), 视为文件结束
+		// 游标回退到该记录的起始位置, 以便调用方得知有效数据的结束位置
+		if off+int64(size) == fileSize && incompleteChunk(reader.blockBuf[reader.offset:size]) {
+			reader.blockID, reader.offset = pos.BlockID, pos.Offset
+			return nil, nil, io.EOF
+		}
+
 		// 对当前 chunk 解码
-		data, chunkType, err := DecodeChunk(reader.blockBuf[reader.offset:])
+		data, chunkType, err := DecodeChunk(reader.blockBuf[reader.offset:size])
 		if err != nil {
 			return nil, nil, err
 		}
@@ -429,6 +440,33 @@ func (reader *DataReader) next() ([]byte, *DataPos, error) {
 	pos.Size = cnt*chunkHeaderSize + uint32(len(res))
 
 	return res, pos, nil
+}
+
+// 判断数据是否不足以构成一个完整的 chunk
+func incompleteChunk(data []byte) bool {
+	if len(data) < chunkHeaderSize {
+		return true
+	}
+	length := binary.LittleEndian.Uint16(data[4:6])
+	return chunkHeaderSize+int(length) > len(data)
+}
+
+// Position 返回读取游标的绝对偏移量, 遍历结束后即为有效数据的结束位置
+func (reader *DataReader) Position() int64 {
+	return int64(reader.blockID)*blockSize + int64(reader.offset)
+}
+
+// Truncate 丢弃指定位置之后的数据, 后续写入从该位置继续
+func (df *DataFile) Truncate(size int64) error {
+	if df.closed {
+		return ErrClosed
+	}
+	if err := df.ReadWriter.Truncate(size); err != nil {
+		return err
+	}
+	df.lastBlockID = uint32(size / blockSize)
+	df.lastBlockSize = uint32(size % blockSize)
+	return nil
 }
 
 func (df *DataFile) Size() int64 {
